@@ -271,6 +271,26 @@ pub fn gen_c08(tier: Tier, seed: u64, em: &mut Emitter) {
         random_history(&mut r, maxlen, &mut inp);
         em.emit_k("random", 80, inp);
     }
+    // role swaps: two MSBs on one channel whose values are the other's controller number plus a
+    // multiple of 32 (all pairs of MSB controllers), then both LSBs -- shortcuts that compare a
+    // stored (controller, value) pair with the wrong components
+    let offs: &[(i64, i64)] = if tier == Tier::Thorough {
+        &[(0, 0), (0, 32), (32, 0), (32, 32), (64, 32), (32, 64), (96, 96), (0, 96)]
+    } else {
+        &[(32, 32), (0, 0), (32, 0)]
+    };
+    for a in 0..32i64 {
+        for b in 0..32i64 {
+            if a == b {
+                continue;
+            }
+            for &(o1, o2) in offs {
+                let s = 176 + (a + b) % 16;
+                em.emit_k("role-swaps", 80, vec![0, s, a, (b + o1) % 128, 0, s, b, (a + o2) % 128,
+                                                 0, s, a + 32, 1, 0, s, b + 32, 2]);
+            }
+        }
+    }
     // this scanner has no notion of time: real time passing between MSB and LSB changes nothing
     let sleeps: &[i64] = if tier == Tier::Thorough { &[1200, 6000] } else { &[1200] };
     for &ms in sleeps {
